@@ -20,6 +20,7 @@ def cases(tier, seed):
 
 def run_both(drv, case):
     io, objs = arrays.run_impl(case)
+    LAST_LEAK[0] = arrays.LEAK[0]
     mo = drv.ask(arrays.model_req(case)) if drv is not None else None
     return arrays.canon(io), (arrays.canon(mo) if mo is not None else None)
 
@@ -39,7 +40,12 @@ def num_equal(a, b):
     return x == y
 
 
+LAST_LEAK = [None]
+
+
 def oracle(case, obs):
+    if LAST_LEAK[0] is not None:
+        return {"label_does_not_address_its_slice": LAST_LEAK[0]}
     a = final_obs(obs)
     if "err" in a:
         return None                # rejected at construction: nothing to round-trip
